@@ -574,14 +574,15 @@ def run_simple_engines(report, prop, engine, jobs, accept=None):
 
 def check_C16(tier, seed):
     rp = Report("C16", tier, seed, "exploration")
-    rp.rule = ("EXHAUSTIVE: all ordered pairs of sequences over {0,1,2} of length 0..4 (121^2 pairs) x inline-capacity pairs (0,0) (0,3) (3,0) (2,2) (2,5) (5,2), "
+    maxlen = 4 if tier == "quick" else 6
+    rp.rule = ("EXHAUSTIVE: all ordered pairs of sequences over {0,1,2} of length 0..%d (%d^2 pairs) x inline-capacity pairs (0,0) (0,3) (3,0) (2,2) (2,5) (5,2), "
                "inline and heap representations; ==, !=, <, <=, >, >= (and the sign of <=> in C++20) must equal std::vector's and be mutually consistent; "
                "non-member erase / erase_if over all sequences x all values / 8 predicates; non-member begin..crend, size, ssize, empty, data, swap against the members; "
-               "tuple = (function, element type, N pair, lengths, ordering class, representations)")
+               "tuple = (function, element type, N pair, lengths, ordering class, representations)" % (maxlen, (3 ** (maxlen + 1) - 1) // 2))
     rp.exhaustive = True
     jobs = []
     def job(cc, std, typ):
-        return {"src": "cmp.cpp", "cc": cc, "flags": ["-std=" + std] + SAN, "args": ["--type", typ], "name": "%s/%s/%s" % (cc, std, typ),
+        return {"src": "cmp.cpp", "cc": cc, "flags": ["-std=" + std] + SAN, "args": ["--type", typ, "--maxlen", maxlen], "name": "%s/%s/%s" % (cc, std, typ),
                 "config_class": "%s/%s" % (std, typ), "compile_failure_is_violation": True}
     if tier == "quick":
         for typ in ("int", "lteq", "double", "nan"):
@@ -827,8 +828,8 @@ def check_C20(tier, seed):
     builds = builds[:3]
     specs = [{"src": "gdbinf.cpp", "cc": cc, "flags": fl, "name": "gdbinf"} for cc, fl in builds]
     bins = build_many(specs)
-    runs = 6 if tier == "quick" else 24
-    steps = 300 if tier == "quick" else 1200
+    runs = 6 if tier == "quick" else 48
+    steps = 300 if tier == "quick" else 3000
     out_dir = os.path.join(svlib.CACHE, "gdbmon-out")
     os.makedirs(out_dir, exist_ok=True)
     cmds, outs = [], []
